@@ -259,7 +259,11 @@ def evaluate(run: Runner, o: Dict[str, Any], scn: Dict[str, Any], ref: Dict[str,
     exp = run.expected(cli_args(o, ref["val"], "eq" if o["kind"] in ("store", "append") else "long"))
     argv = cli_args(o, scn["cli"]["v"], scn["spell"]) if scn["cli"]["has"] else []
     text = file_text(o, scn)
-    got = run.run(argv, {FILES[scn["fmt"]][0]: text})
+    fname = FILES[scn["fmt"]][0]
+    if scn.get("via") == "config":                       # not one of the default names: found through --config only
+        fname = "conf_" + fname
+        argv = [f"--config={fname}"] + argv
+    got = run.run(argv, {fname: text})
     failed: List[str] = []
     obs: Dict[str, Any] = {"exit": got["exit"], "warn": got["warn"]}
     if got["exit"] != ref["abort"]:
@@ -276,7 +280,7 @@ def evaluate(run: Runner, o: Dict[str, Any], scn: Dict[str, Any], ref: Dict[str,
                 failed.append("AccumulateInOrder")
         if bool(got["warn"]) != ref["warn"]:
             failed.append("UnknownKeyWarned")
-    return {"argv": argv, "file": {FILES[scn["fmt"]][0]: text}, "observed": obs, "failed": failed}
+    return {"argv": argv, "file": {fname: text}, "observed": obs, "failed": failed}
 
 
 # ------------------------------------------------------------------------------------ known findings
@@ -295,7 +299,14 @@ def kf_unrecognised_cli_spelling(w: Dict[str, Any]) -> bool:
 def _toml_reading(text: str, section: str, key: str) -> Any:
     import toml
     try:
-        return toml.loads(text)[section][key]
+        with warnings.catch_warnings():
+            warnings.simplefilter("ignore")
+            return toml.loads(text)[section][key]
+    except Exception:
+        pass
+    try:
+        import tomllib
+        return tomllib.loads(text)[section][key]
     except Exception:
         return None
 
@@ -310,7 +321,7 @@ def kf_ini_read_as_toml(w: Dict[str, Any]) -> bool:
         s = w["scn"]
         if s["fmt"] != "ini" or s["fstyle"] != "quoted" or w["failed"] != ["SameAsCommandLine"]:
             return False
-        reading = _toml_reading(w["file"]["pydoctor.ini"], "pydoctor", s["key"])
+        reading = _toml_reading(next(iter(w["file"].values())), "pydoctor", s["key"])
         return isinstance(reading, str) and len(w["observed"].get("differs", {})) == 1 \
             and repr(reading)[:120] == list(w["observed"]["differs"].values())[0][0]
     return False
@@ -318,16 +329,19 @@ def kf_ini_read_as_toml(w: Dict[str, Any]) -> bool:
 
 def kf_toml_leading_escaped_quote(w: Dict[str, Any]) -> bool:
     """Python twin of ConfigQuote.tla KF_TomlLeadingQuote: the `toml` package reads a basic string whose text is `"`
-    or starts with `""` (written "\\"..." ) back as the empty string."""
+    back as empty, and one whose text starts with `""` (written "\\"\\"...") without its first two and last two
+    characters."""
     t = w.get("text") or ""
     return w.get("kind") == "quote" and w.get("q") in ("basic", "double") and bool(w.get("toml_valid")) \
-        and (t == '"' or t.startswith('""')) and w.get("observed") == "" and not w.get("err")
+        and not w.get("err") and ((t == '"' and w.get("observed") == "") or
+                                  (t.startswith('""') and w.get("observed") == t[2:-2]))
 
 
 # -------------------------------------------------------------------------------- part 1: the merge
 MERGE_CFG = """SPECIFICATION Spec
 CONSTANTS Options <- MC_Options
           Formats = {formats}
+          Vias = {vias}
 CONSTRAINT Emit
 INVARIANT ImplIsRef
 """
@@ -340,7 +354,8 @@ def part_merge(ctx: Ctx, rng: random.Random) -> int:
     (sdir / "MC_Config.tla").write_text(
         "---- MODULE MC_Config ----\n\\* generated from pydoctor.options.get_parser()._actions by harness/checks/c20.py\n"
         f"EXTENDS Config\nMC_Options == {lit}\n====\n")
-    r = ctx.tlc("MC_Config", MERGE_CFG.format(formats=tla({"toml", "cfg", "ini"})), workers="auto", timeout=900)
+    r = ctx.tlc("MC_Config", MERGE_CFG.format(formats=tla({"toml", "cfg", "ini"}),
+                                              vias=tla({"default"} if ctx.quick else {"default", "config"})), workers="auto", timeout=900)
     if r.errors or (r.rc != 0 and not r.violated):
         raise MachineryError(f"TLC failed on Config: {r.errors[:3]} rc={r.rc}\n" + "\n".join(r.out.splitlines()[-25:]))
     if r.violated:
@@ -367,7 +382,7 @@ def part_merge(ctx: Ctx, rng: random.Random) -> int:
         if out["failed"]:
             ctx.violation({"invariant": out["failed"][0], "failed": out["failed"], "kind": "merge", "scn": scn,
                            "argv": out["argv"], "file": out["file"], "expected": ref, "observed": out["observed"],
-                           "key": f"merge:{scn['key']}:{scn['fmt']}:{scn['fstyle']}:{scn['spell']}:{scn['unknown']}:"
+                           "key": f"merge:{scn['key']}:{scn['fmt']}:{scn.get('via')}:{scn['fstyle']}:{scn['spell']}:{scn['unknown']}:"
                                   f"{scn['file']['v']}:{scn['cli']['v']}:{out['failed']}"})
         else:
             ob = out["observed"]
@@ -386,7 +401,7 @@ def part_merge(ctx: Ctx, rng: random.Random) -> int:
 
     # negative control: the judge must reject an observation it is handed wrong (file silently ignored)
     o = by_key["project-name"]
-    scn = {"opt": 0, "key": "project-name", "kind": "store", "fmt": "toml", "file": {"has": True, "v": [1]},
+    scn = {"opt": 0, "key": "project-name", "kind": "store", "fmt": "toml", "via": "default", "file": {"has": True, "v": [1]},
            "fstyle": "string", "cli": {"has": False, "v": []}, "spell": "none", "unknown": "none"}
     good = evaluate(run, o, scn, {"val": [1], "warn": False, "abort": False})["failed"]
     bad = evaluate(run, o, scn, {"val": [2], "warn": False, "abort": False})["failed"]
@@ -433,10 +448,15 @@ def read_back(run: Runner, parser: Any, fmt: str, written: str, e2e: bool) -> Tu
     """(text read back, error, file is valid TOML) for `project-name = <written>` in a file of format fmt."""
     import toml
     text = f"[{FILES[fmt][1]}]\nproject-name = {written}\n"
-    try:
-        tv = isinstance(toml.loads(text), dict)
-    except Exception:
-        tv = False
+    tv = False
+    loaders = [toml.loads]
+    with contextlib.suppress(ImportError):
+        import tomllib
+        loaders.append(tomllib.loads)
+    for load in loaders:                             # valid for any TOML reader pydoctor may be using
+        with contextlib.suppress(Exception), warnings.catch_warnings():
+            warnings.simplefilter("ignore")
+            tv = tv or isinstance(load(text), dict)
     if e2e:
         got = run.run([], {FILES[fmt][0]: text})
         if got["exit"]:
@@ -454,12 +474,9 @@ def read_back(run: Runner, parser: Any, fmt: str, written: str, e2e: bool) -> Tu
     return v, "", tv
 
 
-def part_quote(ctx: Ctx, rng: random.Random) -> int:
-    from pydoctor.options import get_parser
-    parser = get_parser()
-    run = Runner(ctx)
-    k = 3 if ctx.quick else 4
-    strings = ["".join(t) for m in range(k + 1) for t in itertools.product(QALPHA, repeat=m)]
+def quote_table(ctx: Ctx, rng: random.Random, run: Runner, parser: Any, strings: Sequence[str], e2e_prob: float,
+                k: int, exhaustive: bool, tag: str) -> Tuple[List[Dict[str, Any]], int]:
+    """Write / read back every (string, style), have TLC judge the table, report. Returns (rows, #end-to-end)."""
     rows, meta = [], []
     e2e_n = 0
     for t in strings:
@@ -467,21 +484,22 @@ def part_quote(ctx: Ctx, rng: random.Random) -> int:
             if not q_applicable(t, q):
                 continue
             w = q_encode(t, q)
-            e2e = len(t) <= 1 or rng.random() < (0.08 if ctx.quick else 0.02)
+            e2e = len(t) <= 1 or rng.random() < e2e_prob
             back, err, tv = read_back(run, parser, fmt, w, e2e)
             e2e_n += e2e
             rows.append({"s": chars(t), "fmt": fmt, "q": q, "w": chars(w), "back": chars(back or ""), "err": err, "tv": tv})
             meta.append((t, w, e2e))
-    f = ctx.scratch / "quote_table.json"
+    f = ctx.scratch / f"quote_table_{tag}.json"
     f.write_text(json.dumps({"rows": rows}))
-    r = ctx.tlc("ConfigQuote", QUOTE_CFG.format(k=k, exh="TRUE", every=max(2, len(rows) // 12)), workers="auto",
+    r = ctx.tlc("ConfigQuote", QUOTE_CFG.format(k=k, exh=tla(exhaustive), every=max(2, len(rows) // 12)), workers="auto",
                 env={"TABLE_FILE": str(f)}, timeout=1500)
+    f.unlink()
     if r.errors or (r.rc != 0 and not r.violated):
         raise MachineryError(f"TLC failed on ConfigQuote: {r.errors[:3]} rc={r.rc}\n" + "\n".join(r.out.splitlines()[-25:]))
     if r.distinct != 1 + 64 + len(rows):
         raise MachineryError(f"TLC evaluated {r.distinct - 65} of {len(rows)} rows")
     if r.violated:
-        ctx.extra.setdefault("design_level_invariants_violated", []).append({"quote": r.violated})
+        ctx.extra.setdefault("design_level_invariants_violated", []).append({"quote-" + tag: r.violated})
     reports = [x for x in r.printed if isinstance(x, dict) and "identity" in x]
     sampled = 0
     for rep in reports:
@@ -494,12 +512,30 @@ def part_quote(ctx: Ctx, rng: random.Random) -> int:
                            "text": t, "written": w, "expected": t, "observed": back if not rep["err"] else None,
                            "err": rep["err"], "toml_valid": rep["tv"], "end_to_end": e2e,
                            "key": f"quote:{rep['fmt']}:{rep['q']}:{t!r}"})
-        elif sampled < 2 and len(t) >= 2:
+        elif sampled < 1 and len(t) >= 2:
             sampled += 1
             ctx.sample({"kind": "quote", "fmt": rep["fmt"], "style": rep["q"], "text": t, "written": w}, limit=8)
     ctx.traces += len(rows)
+    return rows, e2e_n
+
+
+def part_quote(ctx: Ctx, rng: random.Random) -> int:
+    from pydoctor.options import get_parser
+    parser = get_parser()
+    run = Runner(ctx)
+    k = 3 if ctx.quick else 4
+    strings = ["".join(t) for m in range(k + 1) for t in itertools.product(QALPHA, repeat=m)]
+    rows, e2e_n = quote_table(ctx, rng, run, parser, strings, 0.08 if ctx.quick else 0.02, k, True, "exhaustive")
+    # longer strings, sampled
+    weighted = QALPHA + ["\\", "'", '"', "a"]
+    longer = sorted({"".join(rng.choice(weighted) for _ in range(rng.randint(k + 1, k + 4)))
+                     for _ in range(1200 if ctx.quick else 20000)})
+    rows_l, e2e_l = quote_table(ctx, rng, run, parser, longer, 0.05 if ctx.quick else 0.01, k, False, "sampled")
     ctx.extra["quote"] = {"max_len": k, "strings": len(strings), "rows": len(rows), "rows_end_to_end": e2e_n,
-                          "rows_whose_ini_file_is_also_valid_toml": sum(1 for x in rows if x["tv"] and x["fmt"] == "ini")}
+                          "rows_whose_ini_file_is_also_valid_toml": sum(1 for x in rows if x["tv"] and x["fmt"] == "ini"),
+                          "sampled_longer_strings": len(longer), "sampled_rows": len(rows_l),
+                          "sampled_rows_end_to_end": e2e_l}
+    f = ctx.scratch / "quote_table_negctl.json"
 
     # negative control: a corrupted read-back must be reported by TLC
     rows2 = [dict(x) for x in rows[:200]]
@@ -514,7 +550,7 @@ def part_quote(ctx: Ctx, rng: random.Random) -> int:
     f.unlink()
     if not okc:
         raise MachineryError(f"negative control (quote table) failed: {flagged}")
-    return len(rows)
+    return len(rows) + len(rows_l)
 
 
 # -------------------------------------------------------------------------------------------- check
